@@ -23,7 +23,8 @@ def jobs(tier, seed):
         if tier == 'quick' and j['name'] in ('labels_more', 'desc255'): continue
         if j['name'] == 'align' and j['opts']['extras'][0]['desc_len'] % 32 != 31: continue      # the alignment sweep is C04's subject; keep the 255-character cases
         out.append(dict(j, family='load-save-load'))
-    for j in histcommon.hist_jobs('quick', seed, finish=1):
+    for j in histcommon.hist_jobs('quick', seed, finish=1, extra_starts=(8,)):
+        if j['cfg']['start'] == 8: j = dict(j, cfg=dict(j['cfg'], finish=0))     # (lists longer than the counts: memory safety of the edits themselves)
         # quick: populated and fewer-labels start states with the print+save+reload epilogue, the fresh one without it (the epilogue is 5/6 of
         # the cost of a history); the other start states are C05/C07/C10's daily runs (same memory monitors, no epilogue)
         if tier == 'quick' and j['cfg']['start'] in (1, 3, 5, 6): continue
@@ -47,8 +48,8 @@ def run_job(engine, job):
     files = None; assume = None; fam = job['family']
     if fam == 'load-save-load':
         S, c, lay, cells = c02.build_file(job); files = {'in.c3d': gen.to_engine_cells(cells)}; assume = S.cons
-    elif fam == 'history' and job['cfg'].get('start') in (3, 4, 5, 6):
-        S, cells = histcommon.start_file(fewer=job['cfg']['start'] == 4, empty_analog=job['cfg']['start'] == 5, deviating_lists=job['cfg']['start'] == 6); files = {'in.c3d': gen.to_engine_cells(cells)}; assume = S.cons
+    elif fam == 'history' and job['cfg'].get('start') in (3, 4, 5, 6, 8):
+        S, cells = histcommon.start_file(fewer=job['cfg']['start'] == 4, empty_analog=job['cfg']['start'] == 5, deviating_lists=job['cfg']['start'] == 6, pad3=job['cfg']['start'] == 8); files = {'in.c3d': gen.to_engine_cells(cells)}; assume = S.cons
     elif fam == 'tree-edits' and job['cfg'].get('start') == 2:
         S, cells = c09.dup_group_file(); files = {'in.c3d': gen.to_engine_cells(cells)}; assume = S.cons
     elif fam == 'tree-edits' and job['cfg'].get('start') == 1:
